@@ -40,7 +40,7 @@ def run(prog, an, rep):
     rep.run_rules(prog, an, [command_census, prune_is_wildcard_delete,
                              refspecs, remove_guard, remove_overrides,
                              force_only_from_delete_job, hard_resets,
-                             temporaries])
+                             temporaries, push_selection])
 
 
 def command_census(prog, an, rep):
@@ -216,6 +216,40 @@ def refspecs(prog, an, rep):
     rep.check(ok, R, g.qname + ': refspecs are quoted branch names',
               g.where(), 'git_utils.push builds refspecs as %s' %
               [src(j) for j in joins])
+
+
+def push_selection(prog, an, rep):
+    """git_utils.push(repo, branches): everything is pushed (`--all`) only
+    when no selection was asked for (branches is None); an empty selection
+    pushes nothing, a selection pushes the selection."""
+    from ..rules import reachable_under
+    R = 'C08.EXH.push-selection'
+    g = need_func(an, GU + '.push')
+    c = an.cfg(g)
+    sel = g.params[1]
+
+    def refs(node, attr):
+        return node.ast is not None and node.kind in ('stmt', 'test') and \
+            any(isinstance(x, ast.Attribute) and x.attr == attr and
+                src(x.value) == g.params[0] for x in ast.walk(node.ast))
+    everything = {n.id for n in c.nodes.values() if refs(n, 'push_all')}
+    selected = {n.id for n in c.nodes.values() if refs(n, 'push')}
+    rep.floor('C08 push / push_all references in git_utils.push',
+              len(everything) + len(selected), 2)
+    for label, value, may_all, may_sel in (
+            ('branches=None', None, True, False),
+            ('branches=[] (empty selection)', [], False, False),
+            ('branches=[b] (a selection)', ['b'], False, True)):
+        rep.evaluated()
+        live = reachable_under(an, g, {sel: value})
+        got_all, got_sel = bool(live & everything), bool(live & selected)
+        rep.check((got_all, got_sel) == (may_all, may_sel), R,
+                  '%s: %s pushes %s' % (g.qname, label, 'everything'
+                                        if may_all else 'the selection'
+                                        if may_sel else 'nothing'),
+                  g.where(), 'with %s: push --all %s, push of the selection '
+                  '%s' % (label, 'reachable' if got_all else 'unreachable',
+                          'reachable' if got_sel else 'unreachable'))
 
 
 def remove_guard(prog, an, rep):
